@@ -62,95 +62,18 @@ Ltac dst s :=
   destruct s as [e0 m0 ev0 h0];
   destruct h0 as [? ? ? ? ? ? ? ? ? ? ? ? ? ? ? ? ? x0]; destruct x0 as [? ? is0 ? ? ? ? ? ?]; destruct is0.
 
-Lemma invoke_safe : forall tag start length (s : S1), safe (invoke tag start length) s.
-Proof. intros. dst s. unfold safe, invoke, parse_call_args. mstep1; finish_safe1. Qed.
+Ltac unfold_v1 :=
+  unfold invoke, parse_call_args, upgrade, write_return_value, get_parameter_size1, get_parameter_section1,
+    state_lookup_entry, state_create_entry, state_delete_entry, state_delete_prefix, state_iterator,
+    state_iterator_next, state_iterator_delete, state_iterator_key_size, state_iterator_key_read,
+    state_entry_read, state_entry_write, state_entry_size, state_entry_resize, get_receive_entrypoint_size,
+    get_receive_entrypoint, verify_ed25519_signature, verify_ecdsa_secp256k1_signature, hash_generic, two_fields.
 
-Lemma upgrade_safe : forall a (s : S1), safe (upgrade a) s.
-Proof. intros. dst s. unfold safe, upgrade. mstep1; finish_safe1. Qed.
-
-Lemma write_return_value_safe : forall start length offset (s : S1),
-  v1_ok s -> safe (write_return_value start length offset) s.
+(** *** every v1 host call is total *)
+Theorem call_v1_safe : forall f args (s : S1), args_wf (sig1 f) args -> v1_ok s -> safe (call_v1 f args) s.
 Proof.
-  intros ? ? ? s [Hrv _]. dst s. cbn [hs HostV0.h_limit HostV0.h_ext HostV1.x_rv] in Hrv.
-  unfold safe, write_return_value. mstep1; finish_safe1.
-Qed.
-
-Lemma get_parameter_size1_safe : forall a (s : S1), safe (get_parameter_size1 a) s.
-Proof. intros. dst s. unfold safe, get_parameter_size1. mstep1; finish_safe1. Qed.
-Lemma get_parameter_section1_safe : forall a b c d (s : S1), safe (get_parameter_section1 a b c d) s.
-Proof. intros. dst s. unfold safe, get_parameter_section1. mstep1; finish_safe1. Qed.
-
-Lemma state_lookup_entry_safe : forall a b (s : S1), safe (state_lookup_entry a b) s.
-Proof. intros. dst s. unfold safe, state_lookup_entry. mstep1; finish_safe1. Qed.
-Lemma state_create_entry_safe : forall a b (s : S1), safe (state_create_entry a b) s.
-Proof. intros. dst s. unfold safe, state_create_entry. mstep1; finish_safe1. Qed.
-Lemma state_delete_entry_safe : forall a b (s : S1), safe (state_delete_entry a b) s.
-Proof. intros. dst s. unfold safe, state_delete_entry. mstep1; finish_safe1. Qed.
-Lemma state_delete_prefix_safe : forall a b (s : S1), safe (state_delete_prefix a b) s.
-Proof. intros. dst s. unfold safe, state_delete_prefix. mstep1; finish_safe1. Qed.
-Lemma state_iterator_safe : forall a b (s : S1), safe (state_iterator a b) s.
-Proof. intros. dst s. unfold safe, state_iterator. mstep1; finish_safe1. Qed.
-Lemma state_iterator_next_safe : forall a (s : S1), safe (state_iterator_next a) s.
-Proof. intros. dst s. unfold safe, state_iterator_next. mstep1; finish_safe1. Qed.
-Lemma state_iterator_delete_safe : forall a (s : S1), safe (state_iterator_delete a) s.
-Proof. intros. dst s. unfold safe, state_iterator_delete. mstep1; finish_safe1. Qed.
-Lemma state_iterator_key_size_safe : forall a (s : S1), safe (state_iterator_key_size a) s.
-Proof. intros. dst s. unfold safe, state_iterator_key_size. mstep1; finish_safe1. Qed.
-Lemma state_iterator_key_read_safe : forall a b c d (s : S1), safe (state_iterator_key_read a b c d) s.
-Proof. intros. dst s. unfold safe, state_iterator_key_read. mstep1; finish_safe1. Qed.
-Lemma state_entry_read_safe : forall a b c d (s : S1), safe (state_entry_read a b c d) s.
-Proof. intros. dst s. unfold safe, state_entry_read. mstep1; finish_safe1. Qed.
-Lemma state_entry_write_safe : forall a b c d (s : S1), v1_ok s -> safe (state_entry_write a b c d) s.
-Proof.
-  intros ? ? ? ? s [_ [Hent _]]. dst s. cbn [hs HostV0.h_ext HostV1.x_is HostV1.is_entries] in Hent.
-  unfold safe, state_entry_write. mstep1; finish_safe1.
-Qed.
-Lemma state_entry_size_safe : forall a (s : S1), safe (state_entry_size a) s.
-Proof. intros. dst s. unfold safe, state_entry_size. mstep1; finish_safe1. Qed.
-Lemma state_entry_resize_safe : forall a b (s : S1), safe (state_entry_resize a b) s.
-Proof. intros. dst s. unfold safe, state_entry_resize. mstep1; finish_safe1. Qed.
-Lemma get_receive_entrypoint_safe : forall a (s : S1), v1_ok s -> safe (get_receive_entrypoint a) s.
-Proof.
-  intros a s [_ [_ Hep]]. dst s. cbn [hs HostV0.h_ext HostV1.x_entrypoint] in Hep.
-  unfold safe, get_receive_entrypoint. mstep1; finish_safe1.
-Qed.
-Lemma verify_ed25519_safe : forall a b c d (s : S1), safe (verify_ed25519_signature a b c d) s.
-Proof. intros. dst s. unfold safe, verify_ed25519_signature. mstep1; finish_safe1. Qed.
-Lemma verify_ecdsa_safe : forall a b c (s : S1), safe (verify_ecdsa_secp256k1_signature a b c) s.
-Proof. intros. dst s. unfold safe, verify_ecdsa_secp256k1_signature. mstep1; finish_safe1. Qed.
-Lemma hash_generic_safe : forall k cost a b c (s : S1), safe (hash_generic k cost a b c) s.
-Proof. intros. dst s. unfold safe, hash_generic. mstep1; finish_safe1. Qed.
-
-Lemma val_safe : forall (m : M1 (option N)) (s : S1), safe m s -> safe (val m) s.
-Proof.
-  intros m s H. unfold safe, val, bind, ret in *. destruct (m s) as [s' [a| | |]]; cbn [snd] in *; try discriminate.
-  congruence.
-Qed.
-
-Theorem call_v1_safe : forall f args (s : S1), v1_ok s -> safe (call_v1 f args) s.
-Proof.
-  intros f args s H1. unfold safe, call_v1.
-  change (snd ((h <- get_hs ;; (if h_init h && v1_receive_only f then trap
-            else if negb (h_init h) && match f with V1get_init_origin => true | _ => false end then trap
-            else call_v1_raw f args)) s) <> Fault).
-  cbv beta iota delta [bind get_hs].
-  destruct (h_init (hs s) && v1_receive_only f); [unfold trap; cbn [snd]; discriminate|].
-  destruct (negb (h_init (hs s)) && match f with V1get_init_origin => true | _ => false end); [unfold trap; cbn [snd]; discriminate|].
-  destruct f; cbn [call_v1_raw];
-    repeat (match goal with |- context [match ?l with [] => _ | _ :: _ => _ end] => is_var l; destruct l end; cbn [call_v1_raw]);
-    try (unfold trap; cbn [snd]; discriminate).
-  all: try apply val_safe.
-  all: first
-    [ apply invoke_safe | apply upgrade_safe | (apply write_return_value_safe; assumption)
-    | apply get_parameter_size1_safe | apply get_parameter_section1_safe
-    | apply get_policy_section_safe | apply log_event_safe
-    | apply get_receive_self_address_safe | apply get_receive_sender_safe | apply get_slot_time_safe
-    | apply state_lookup_entry_safe | apply state_create_entry_safe | apply state_delete_entry_safe
-    | apply state_delete_prefix_safe | apply state_iterator_safe | apply state_iterator_next_safe
-    | apply state_iterator_delete_safe | apply state_iterator_key_size_safe | apply state_iterator_key_read_safe
-    | apply state_entry_read_safe | (apply state_entry_write_safe; assumption) | apply state_entry_size_safe
-    | apply state_entry_resize_safe | (apply get_receive_entrypoint_safe; assumption) | apply verify_ed25519_safe
-    | apply verify_ecdsa_safe | apply hash_generic_safe
-    | (unfold get_init_origin, get_receive_invoker, get_receive_owner; mprims; apply put_address_safe)
-    | (unfold get_receive_self_balance, get_receive_entrypoint_size; mstep1; finish_safe1) ].
+  intros f args s Hwf (Hrv & Hent & Hep). dst s.
+  cbn [hs HostV0.h_limit HostV0.h_ext HostV1.x_rv HostV1.x_is HostV1.is_entries HostV1.x_entrypoint] in Hrv, Hent, Hep.
+  unfold safe, call_v1.
+  destruct f; split_args args; cbn [call_v1_raw sig1 args_wf] in *; unfold_v1; unfold_v0; mstep1; finish_safe1.
 Qed.
